@@ -157,6 +157,10 @@ func (w *dbWriter) txn(maxDelta int) (committed bool, err error) {
 	if w.rng.IntN(4) == 0 {
 		spec.SpillAfter = 2
 	}
+	if newN > cur+1 && cur > 0 && w.rng.IntN(3) == 0 {
+		// pages allocated and freed again are never written by SQLite
+		spec.UnwrittenNew = 1 + uint32(w.rng.IntN(int(newN-cur-1)))
+	}
 	res := w.conn.RunRollbackTx(spec)
 	if res.Err != nil {
 		w.lastErr, w.lastStep = res.Err, res.ErrStep
